@@ -564,6 +564,7 @@ func crashCampaign(prop string, r *Result, quick, thorough int, double bool) {
 					continue
 				}
 				desc := map[string]any{"spec": ps, "cut": k, "of": nw}
+				breadcrumb(desc)
 				rc := recoverFrom(rr, ps, rr.recs[:k], 15*time.Second)
 				checkRecovery(r, rr, ps, rr.recs[:k], rc, desc, true, rr.res.Final)
 				inside := k > 0 && k < nw
